@@ -82,6 +82,10 @@ def table(pid, what, ref):
 CHECKS["C11"] = table("C11", "TblRedirect.tla states when a redirect to a requested URI is allowed (string-identical to a registered URI, or http + loopback literal + same host/path/query; absolute; no own fragment) over URI records; TLC enumerates every registered set x every one- (thorough: two-) component near-miss of a registered URI x response type x response mode x kind of request error; every row is rendered to strings and driven through NewAuthorizeRequest / NewAuthorizeResponse / WriteAuthorizeResponse / WriteAuthorizeError, and the Location header or form action is compared (redirected => allowed, target = requested, no code over plain http to a non-local host).", "DESIGN.md 6 C11")
 CHECKS["C12"] = table("C12", "TblScope.tla transcribes the documented rules of the three scope strategies and two audience strategies; TLC enumerates all pattern/needle pairs over the segment alphabet {a,b,*,empty} up to 3 (thorough 4) segments, all URL pairs of the bounded URL domain, and the confinement table flow x strategy x registration x request for all nine flows; the real strategy functions are called on every row and every flow is driven with every out-of-policy request (accept/refuse, error class, scopes/audience of issued tokens).", "DESIGN.md 6 C12")
 
+CHECKS["C06"] = table("C06", "TblHmac.tla models a credential as <<prefix, key, mac>> with an uninterpreted injective MAC and states which presentations are accepted under which secret/hash configuration (current, rotated at any position, forgotten, shorter than 32 bytes before/after the matching one, equal in the first 32 bytes, other hash function); TLC enumerates credential kind (code, access, refresh, device code) x 17 mutation classes x 10 configurations, and 13 JWT manipulation classes. Every row is concretised n times (seeded bit/byte positions, real tokens minted by the real strategies through the real flows) and presented to Validate and to the consuming endpoint; a refusal must leave the store projection unchanged; all minted values of the run are checked for repeats and decoded key length.", "DESIGN.md 6 C06")
+CHECKS["C10"] = table("C10", "TblClientAuth.tla transcribes client authentication (registration kind/method/public/rotated secrets x transport x secret relation x known id x endpoint -> authentication verdict and endpoint outcome); TLC enumerates all 5040 rows; each is executed with real bcrypt-hashed secrets at the token (client_credentials, password, refresh_token), revocation, PAR and device-authorization endpoints; on a rejected authentication the storage write log must be empty and the presented refresh token still active.", "DESIGN.md 6 C10")
+CHECKS["C13"] = table("C13", "TblAuthz.tla transcribes the authorization-request validation pipeline and response placement (registered response-type sets, response modes, grant types x response_type list with order and duplicates x response_mode x state/nonce length x openid x redirect_uri); the safety clauses of the statement are ASSUMEd of the specification on the whole domain (70200 rows); rows (all at thorough, a seeded 16000 at quick) are driven through NewAuthorizeRequest/NewAuthorizeResponse/Write*, and verdict, issued artefacts, placement (query/fragment/form), 'no token in the query' and state echo are compared.", "DESIGN.md 6 C13")
+
 NOT_YET = "check not built yet in this session (planned, see DESIGN.md section 10); nothing is claimed"
 
 def main():
